@@ -311,6 +311,193 @@ def h_schedule(ctx, driver, names, fault, sym_calls=3):
     return " ".join("%s=%s" % kv for kv in sorted(fin.items())) + " | " + "".join(c for c, _, _ in log.emissions)
 
 
+# real gateway layer ------------------------------------------------------------------------------
+
+def h_real_sci(ctx, which):
+    """Two callers on the real LUBA / SCI driver *and* protocol object (only the serial line is a model): A
+    sends a stand-alone device-type query, B runs a sequence with a device-type command.  The interface
+    confirms every frame except a solver-chosen one, for which it reports an error (SCI: status code 7) or
+    nothing at all; the bytes written to the line, read back per the wire format, must still be whole units
+    with every device-type command directly behind its own ENABLE DEVICE TYPE."""
+    log = Log()
+    progs = {"A": PROGRAMS["send6"], "B": PROGRAMS["seq-dt"]}
+    closed = {k: [] for k in progs}
+    bad_at = ctx.fresh_choice("bad_frame", 7)          # index of the written frame that is not confirmed (6 = none)
+    bad_kind = ctx.fresh_choice("bad_kind", 2) if which == "sci" else 1     # 0: error status, 1: silence
+    start_b = ctx.fresh_choice("start_B", 3)
+    out = {}
+    owner = {}
+    for k, prog in progs.items():
+        for fv, w in _units_of(prog):
+            if (fv >> 8) != 0xC1:
+                owner[(fv, w)] = k
+
+    async def main(loop):
+        d, p, t = (rigs.luba_driver if which == "luba" else rigs.sci_driver)(loop)
+        n = {"w": 0}
+
+        def gateway(data):
+            i = n["w"]
+            n["w"] += 1
+            if which == "luba":
+                nb = data[4] // 8
+                fb = list(data[6:6 + nb])
+            else:
+                mode = data[0] & 0x0F
+                fb = list(data[1:3]) if mode == 3 else list(data[1:4])
+            fv = 0
+            for b in fb:
+                fv = (fv << 8) | b
+            log.emissions.append([None, fv, 8 * len(fb)])
+            if i == bad_at:
+                if bad_kind == 0:
+                    loop.call_later(0.01, p.data_received, rigs.sci_frame(0x17, 0, 0, 1))
+                return
+            if which == "luba":
+                loop.call_later(0.01, p.data_received, rigs.luba_event_tx(i & 0xFF, fb))
+            else:
+                loop.call_later(0.01, p.data_received, rigs.sci_frame(0x10, 0, 0, 0))
+        t.on_write = gateway
+        tasks = {}
+        for k, prog in progs.items():
+            async def runner(k=k, prog=prog):
+                if k == "B":
+                    await asyncio.sleep(0.004 * start_b)
+                return await _run_program(d, prog, closed[k], True, None)
+            tk = asyncio.ensure_future(runner())
+            tasks[k] = tk
+        await asyncio.sleep(8.0)
+        fin = {}
+        for k, tk in tasks.items():
+            if not tk.done():
+                fin[k] = "pending"
+                tk.cancel()
+            elif tk.exception() is not None:
+                fin[k] = "exc:" + type(tk.exception()).__name__
+            else:
+                fin[k] = "ok"
+        out["fin"] = fin
+        out["locked"] = d.transaction_lock.locked() or p._tx_lock.locked()
+    st, r = call(vloop.run, main)
+    tag = "%s-real" % which
+    if st == "exc":
+        ctx.fail("harness run raised %r" % (r,), key=tag + "/run-raised:" + type(r).__name__)
+        return "raised"
+    # attribute the frames on the wire: a command by its bits, an ENABLE DEVICE TYPE by the frame behind it
+    em = log.emissions
+    for i, e in enumerate(em):
+        e[0] = owner.get((e[1], e[2]))
+    for i, e in enumerate(em):
+        if e[0] is None and (e[1] >> 8) == 0xC1 and e[2] == 16:
+            e[0] = em[i + 1][0] if i + 1 < len(em) and em[i + 1][0] is not None else \
+                (em[i - 1][0] if i > 0 else "?")
+    log.emissions = [tuple(e) for e in em]
+    fin = out["fin"]
+    for k, v in fin.items():
+        ctx.prove(v != "pending", "caller %s never completed" % k, key=tag + "/hang")
+    ctx.prove(not out["locked"], "a lock is still held after every caller finished", key=tag + "/lock-held")
+    _edt_adjacent(ctx, log, tag)
+    prev, done = None, set()
+    for who, fv, w in log.emissions:
+        if who != prev:
+            ctx.prove(who not in done, "frames of caller %s are interleaved with another caller's" % who,
+                      key=tag + "/interleaved")
+            if prev is not None:
+                done.add(prev)
+            prev = who
+    ctx.prove(len(closed["B"]) == 1, "sequence generator was not closed", key=tag + "/not-closed")
+    return " ".join("%s=%s" % kv for kv in sorted(fin.items())) + " | " + "".join(str(c) for c, _, _ in log.emissions)
+
+
+def h_real_hid(ctx, bprog):
+    """The real Tridonic driver (fake os, virtual clock).  Caller A runs a sequence that sleeps for two seconds
+    in the middle of its transaction; the adapter may disappear and come back (reconnect interval 1 s) during
+    that sleep; caller B starts at a solver-chosen moment - before, during or after the outage.  The 0x12
+    reports written to the device must show A's frames as one block with the device-type command directly
+    behind its ENABLE DEVICE TYPE, B's unit before or after it; everybody completes and the lock is free."""
+    log = Log()
+    seq_a = lambda: [gg.DTR0(5), SQ.sleep(2.0), led.QueryGearType(A.GearShort(4))]     # noqa
+    progs = {"A": [("seq", seq_a)], "B": PROGRAMS[bprog]}
+    closed = {k: [] for k in progs}
+    lost = ctx.fresh_bool("lost_during_sleep")
+    tb = [0.0, 0.3, 0.8, 1.7, 2.6][ctx.fresh_choice("start_B", 5)]
+    out = {}
+    owner = {}
+    for k, prog in progs.items():
+        for fv, w in _units_of(prog):
+            if (fv >> 8) != 0xC1:
+                owner[(fv, w)] = k
+    with rigs.HidRig(ctx, 17) as rig:
+        async def main(loop):
+            d = H.tridonic("/dev/dali", reconnect_interval=1)
+
+            def gateway(data):
+                if data[0] == 0x01:
+                    if data[1] == 0x00:
+                        loop.call_soon(rig.deliver, loop, d, bytes([1, 0, 0, 1, 2] + [0] * 59))
+                    else:
+                        loop.call_soon(rig.deliver, loop, d, bytes([1, 1, 2, 3, 4] + [0] * 59))
+                    return
+                if data[0] != 0x12:
+                    return
+                s, mode = data[1], data[3]
+                fr = list(data[4:8])
+                fv, w = ((fr[2] << 8) | fr[3], 16) if mode == 3 else ((fr[1] << 16) | (fr[2] << 8) | fr[3], 24)
+                log.emissions.append([None, fv, w])
+                for _ in range(2 if (data[2] & 0x20) else 1):       # a send-twice frame is echoed twice
+                    loop.call_soon(rig.deliver, loop, d,
+                                   rigs.tridonic_report(0x12, 0x73 if mode == 3 else 0x76, fr, s))
+                loop.call_soon(rig.deliver, loop, d, rigs.tridonic_report(0x12, 0x71, [0, 0, 0, 0], s))
+            rig.os.on_write = gateway
+            d.connect()
+            await asyncio.sleep(0.2)
+            t0 = loop.time()
+            tasks = {}
+
+            async def run_b():
+                await asyncio.sleep(tb)
+                return await _run_program(d, progs["B"], closed["B"], True, None)
+            tasks["A"] = asyncio.ensure_future(_run_program(d, progs["A"], closed["A"], True, None))
+            tasks["B"] = asyncio.ensure_future(run_b())
+            if lost:
+                await asyncio.sleep(0.5)
+                rig.deliver(loop, d, b"")
+            await asyncio.sleep(12.0)
+            fin = {}
+            for k, tk in tasks.items():
+                if not tk.done():
+                    fin[k] = "pending"
+                    tk.cancel()
+                elif tk.exception() is not None:
+                    fin[k] = "exc:" + type(tk.exception()).__name__
+                else:
+                    fin[k] = "ok"
+            out["fin"] = fin
+            out["locked"] = d.transaction_lock.locked()
+            d.disconnect()
+            await vloop.settle(2)
+        st, r = call(vloop.run, main)
+    tag = "hid-real"
+    if st == "exc":
+        ctx.fail("harness run raised %r" % (r,), key=tag + "/run-raised:" + type(r).__name__)
+        return "raised"
+    em = log.emissions
+    for e in em:
+        e[0] = owner.get((e[1], e[2]))
+    for i, e in enumerate(em):
+        if e[0] is None and (e[1] >> 8) == 0xC1 and e[2] == 16:
+            e[0] = em[i + 1][0] if i + 1 < len(em) and em[i + 1][0] is not None else (em[i - 1][0] if i > 0 else "?")
+    log.emissions = [tuple(e) for e in em]
+    fin = out["fin"]
+    for k, v in fin.items():
+        ctx.prove(v == "ok", "caller %s ended as %s" % (k, v), key=tag + "/" + ("hang" if v == "pending" else "failed"))
+    ctx.prove(not out["locked"], "transaction lock still held after every caller finished", key=tag + "/lock-held")
+    _check_log(ctx, log, progs, fin, tag)
+    _edt_adjacent(ctx, log, tag)
+    ctx.prove(len(closed["A"]) == 1, "sequence generator was not closed", key=tag + "/not-closed")
+    return " ".join("%s=%s" % kv for kv in sorted(fin.items())) + " | " + "".join(str(c) for c, _, _ in log.emissions)
+
+
 def _stage2(ctx, log, progs, tag):
     """Interleaving as integers: with per-caller traces acquire < emissions < release and
     mutual exclusion of the [acquire, release] intervals, can another caller's emission fall
@@ -372,4 +559,9 @@ def cases(tier):
                 for fault in ("none", "gateway"):
                     cs.append(Case("%s-%s-%s" % (drv, "+".join(names), fault), h_schedule,
                                    {"driver": drv, "names": names, "fault": fault}))
+    for which in ("sci", "luba"):
+        cs.append(Case("%s-real-layer" % which, h_real_sci, {"which": which}))
+    for bprog in ("send-plain", "send6", "seq-twice"):
+        cs.append(Case("hid-real-layer-%s" % bprog, h_real_hid, {"bprog": bprog},
+                       install=rigs.install_tridonic_structs))
     return cs
